@@ -59,6 +59,14 @@ impl SpeechGenerator {
         self.next
     }
 
+    /// Read-only view of the (spectrum, log-F0, low-pass) parameter trajectories that will be rendered.
+    ///
+    /// Only available with the `verif-hooks` feature; used by the external verification harness.
+    #[cfg(feature = "verif-hooks")]
+    pub fn verif_parameters(&self) -> (&[Vec<f64>], &[Vec<f64>], &[Vec<f64>]) {
+        (&self.spectrum, &self.lf0, &self.lpf)
+    }
+
     /// Generate speech of length `fperiod` in `speech`.
     ///
     /// The length of `speech` must be longer than `fperiod`, otherwise, this function will panic.
